@@ -256,7 +256,7 @@ func (p *parser) term() (*Term, error) {
 			op := "call"
 			if name == "phi" {
 				op = "phi"
-			} else if !strings.Contains(name, ".") {
+			} else if !strings.Contains(name, ".") && !strings.Contains(name, ":") {
 				op = "op"
 			}
 			t = &Term{Op: op, Name: name, Args: args}
@@ -384,11 +384,53 @@ func Match(p, t *Term, env map[string]*Term) bool {
 		if len(t.Args) != n {
 			return false
 		}
+		ok := true
+		snap := copyEnv(env)
 		for i := range p.Args {
 			if !Match(p.Args[i], t.Args[i], env) {
-				return false
+				ok = false
+				break
 			}
 		}
+		if ok {
+			return true
+		}
+		if n == 2 && commutative(t.Name) {
+			restoreEnv(env, snap)
+			if Match(p.Args[0], t.Args[1], env) && Match(p.Args[1], t.Args[0], env) {
+				return true
+			}
+		}
+		restoreEnv(env, snap)
+		return false
+	}
+	return false
+}
+
+func copyEnv(e map[string]*Term) map[string]*Term {
+	c := make(map[string]*Term, len(e))
+	for k, v := range e {
+		c[k] = v
+	}
+	return c
+}
+
+func restoreEnv(e, snap map[string]*Term) {
+	for k := range e {
+		if _, ok := snap[k]; !ok {
+			delete(e, k)
+		}
+	}
+}
+
+// commutative: a.Op(b) == b.Op(a) as values (exact addition / multiplication of the integer and decimal
+// types, and the symmetric comparisons); rounding multiplications are commutative too.
+func commutative(name string) bool {
+	switch name {
+	case "add", "mul", "eq", "ne", "and", "or",
+		"sdkmath.Int.Add", "sdkmath.Int.Mul", "sdkmath.LegacyDec.Add", "sdkmath.LegacyDec.Mul", "sdkmath.LegacyDec.MulTruncate", "sdkmath.LegacyDec.MulRoundUp",
+		"osmomath.BigDec.Add", "osmomath.BigDec.Mul", "osmomath.BigDec.MulTruncate", "osmomath.BigDec.MulRoundUp", "osmomath.BigInt.Add", "osmomath.BigInt.Mul",
+		"sdkmath.Int.Equal", "sdkmath.LegacyDec.Equal", "osmomath.BigDec.Equal":
 		return true
 	}
 	return false
